@@ -155,9 +155,7 @@ def run_one(seed, i, tier):
 
 
 def replay(payload):
-    from ..core.runner import run_isolated
-    out, v = run_isolated(run_payload, (payload,), timeout=RUN_TIMEOUT)
-    return v
+    return _thr.witness_replay(run_payload, payload, RUN_TIMEOUT)
 
 
 def minimise(payload, viol):
